@@ -1,7 +1,7 @@
 (* Entry points for register / block / section files (C04 C05 C06 C10 C12 C13 C18). Definitions only. *)
 From Coq Require Import ZArith NArith List Bool Arith.
 From Coq Require Import Floats.SpecFloat.
-From Cfi Require Import Glue.Sx Py.PyStr Py.PyNum Py.PyBits Py.PyDate Model.Field Model.Line Model.LineRun Model.Reader.
+From Cfi Require Import Glue.Sx Py.PyStr Py.PyNum Py.PyBits Py.PyDate Py.PyRe Model.Field Model.Line Model.LineRun Model.Reader.
 Import ListNotations.
 
 Definition dec_regdef (s : sx) : regdef :=
@@ -122,7 +122,7 @@ Definition run_regfile (arg : sx) : sx :=
   end.
 
 (* BLOCKFILE: (variant sto blockdefs content) -> (elements (type raw), written); variant bit 0: dispatch ignores storage *)
-Definition dec_pattern (s : sx) : pattern := map (fun a => (sxB (sxnth 0 a), sxS (sxnth 1 a))) (sxL s).
+Definition dec_pattern (s : sx) : pattern := dec_re s.
 Definition dec_blockdef (s : sx) : blockdef := {| b_begin := dec_pattern (sxnth 0 s); b_end := dec_pattern (sxnth 1 s) |}.
 Definition Sraw (es : list (option nat * str)) : sx :=
   L (map (fun e => L [match fst e with Some i => Snat i | None => I (-1)%Z end; Sstr (snd e)]) es).
